@@ -824,6 +824,20 @@ def run(ctx):
     def ask(fn, arg):
         return m.ask(f"({ENG} {fn} {arg})")
 
+    seen_keys = {}
+
+    def report(key, summary, rep):
+        """v.failing_input, after checking (first two per class, not for known findings) that the single-case replay fails in
+        a NEW interpreter: when it does not, the failure needs what this process did before (a cache on a class or a module)
+        and the summary says so; the history streams (c18_hist) then give a replay that carries the history"""
+        seen_keys[key] = seen_keys.get(key, 0) + 1
+        if seen_keys[key] <= 2 and not any(k.get("key") == key for k in v.known):
+            import c18_hist
+            if not c18_hist.reproduces_in_fresh_process(rep):
+                summary = ("[this single case holds in a fresh interpreter: the failure depends on what the process did before; "
+                           "see the history-dependent-* violations for a replay with the history] " + summary)
+        return v.failing_input(key, summary, rep)
+
     # which of the two mirrored behaviours does this tree have?  (the regenerated constant
     # inf_nested_by_field_name of the model vs an independent probe of the implementation)
     by_name = probe_by_field_name()
@@ -860,7 +874,7 @@ def run(ctx):
             dist["dot_default"] += 1
             ok, det = oracle_infer_headers(schema)
             if not ok:
-                v.failing_input("default-contains-dot",
+                report("default-contains-dot",
                                 f"headers {det['headers']!r}: inferred {det['inferred']} but the schema denotes {det['denoted']}",
                                 dict(fn="infer_headers", schema=schema))
             if m:
@@ -885,7 +899,7 @@ def run(ctx):
         if not dotted:
             ok, det = oracle_infer_headers(schema)
             if not ok:
-                v.failing_input("inferred-model-differs",
+                report("inferred-model-differs",
                                 f"headers {det['headers']!r}: inferred {det['inferred']} but the schema denotes {det['denoted']}",
                                 dict(fn="infer_headers", schema=schema))
         io_ = impl_infer(hs)
@@ -917,14 +931,14 @@ def run(ctx):
                 ctx.disagree("stable_partition (Coq) vs harness", repr(hs), repr(mp), repr(part))
         if part != hs:
             if impl_infer(part) != io_:
-                v.failing_input("partition-changes-model", f"{hs!r} vs {part!r}", dict(fn="partition", headers=hs))
+                report("partition-changes-model", f"{hs!r} vs {part!r}", dict(fn="partition", headers=hs))
             stats["partition_cases"] = stats.get("partition_cases", 0) + 1
         if hom and len(hs) > 1:
             perm = list(hs)
             rng.shuffle(perm)
             a = impl_infer(perm)
             if sort_fields(a) != sort_fields(io_):
-                v.failing_input("permutation-changes-model", f"{hs!r} vs {perm!r}", dict(fn="permutation", headers=hs, perm=perm))
+                report("permutation-changes-model", f"{hs!r} vs {perm!r}", dict(fn="permutation", headers=hs, perm=perm))
             stats["permutation_cases"] = stats.get("permutation_cases", 0) + 1
             if m:
                 mo2 = dec_model_res(ask(1, enc_headers(perm)))
@@ -940,7 +954,7 @@ def run(ctx):
                 dist["rows"] += len(rows)
                 ok, det = parses_same(schema, hs, rows, dist)
                 if not ok:
-                    v.failing_input("row-parses-differently",
+                    report("row-parses-differently",
                                     f"headers {hs!r} row {det['row']!r}: inferred {det['inferred']} explicit {det['explicit']}",
                                     dict(fn="parses_same", schema=schema, rows=[det["row"]]))
                 # content independence + the real fallback, on a sub-sample
@@ -949,7 +963,7 @@ def run(ctx):
                     rows2 = [gen_row(rng, schema, hs) for _ in range(2)]
                     ok, det = oracle_content_independent(schema, hs, [rows, rows2, []])
                     if not ok:
-                        v.failing_input(det["kind"], f"through the content index: {det}",
+                        report(det["kind"], f"through the content index: {det}",
                                         dict(fn="content_independent", schema=schema, rowsets=[rows, rows2, []]))
     stats["schemas"] = dist
     stats["schema_features"] = feats
